@@ -49,6 +49,12 @@ def build_arg(kind, items):
         return list(items)
     if kind == "tuple":
         return tuple(items)
+    if kind == "iter":
+        return iter(list(items))        # a one-shot iterable (generator, map, ...): can be walked once
+    if kind == "badtail":
+        return list(items) + [[]]       # ends with an unhashable item: the built-in raises TypeError when it gets there
+    if kind == "noniterable":
+        return 5
     raise AssertionError(kind)
 
 
@@ -128,6 +134,8 @@ def make_harness(op, s, shape, kinds, vname, factory=plain_factory):
                 badeq = True
             args = [build_arg(k, items) for k, items in zip(kinds, raw)] if kinds != ("self",) else [ts]
         flat = [x for grp in raw for x in grp]
+        oneshot = "iter" in kinds
+        fresh_args = (lambda: [build_arg(k, items) for k, items in zip(kinds, raw)]) if oneshot else (lambda: args)
         self_operand = kinds == ("self",)
         # ---- the operation on the TraitSet ----
         exc_t = None
@@ -143,7 +151,7 @@ def make_harness(op, s, shape, kinds, vname, factory=plain_factory):
         ref = set(before)
         if refine:
             try:
-                apply_op(op, ref, [ref] if self_operand else args)      # the set itself as the operand
+                apply_op(op, ref, [ref] if self_operand else fresh_args())      # the set itself as the operand
             except EXC as e:
                 exc_r = type(e).__name__
                 ref = set(before)
@@ -159,7 +167,7 @@ def make_harness(op, s, shape, kinds, vname, factory=plain_factory):
                 exc_r = "TraitError"
             else:
                 try:
-                    apply_op(op, ref, args)
+                    apply_op(op, ref, fresh_args())
                 except EXC as e:
                     exc_r = type(e).__name__
                     ref = set(before)
@@ -427,6 +435,13 @@ def obligations(tier, build):
                     kindsets = [("list",) * len(shape)]
                     if len(shape) == 1:
                         kindsets.append(("set",))
+                        kindsets.append(("iter",))
+                        if vname == "ident":
+                            kindsets.append(("badtail",))
+                    elif vname == "ident":
+                        kindsets.append(("iter",) * len(shape))
+                        kindsets.append(("list",) * (len(shape) - 1) + ("noniterable",))
+                        kindsets.append(("list",) * (len(shape) - 1) + ("badtail",))
                     for kinds in kindsets:
                         obs.append(Obligation("%s/s=%d/%s/%s/%s" % (op, s, "+".join(map(str, shape)), "+".join(kinds), vname),
                                               make_harness(op, s, shape, kinds, vname),
@@ -435,7 +450,7 @@ def obligations(tier, build):
                                               leverage="membership / overlap of symbolic elements", **common))
             for op in OPSI + OPSS:
                 for shape in shapes_1:
-                    for kind in (("set", "frozenset", "list") if op in OPSI else ("list", "set")):
+                    for kind in (("set", "frozenset", "list") if op in OPSI else ("list", "set", "iter")):
                         if tier == "quick" and kind == "frozenset" and shape != (1,):
                             continue
                         obs.append(Obligation("%s/s=%d/%d/%s/%s" % (op, s, shape[0], kind, vname),
